@@ -10,9 +10,9 @@ class CPoolSpec(Spec):
     wall_cap = {'quick': 1200, 'thorough': 7200}
     strata = {
         'quick': [('core', 5), ('nofault', 3), ('keyed', 1), ('cancel', 1), ('cancel_batch', 1), ('poolfault', 1),
-                  ('remote', 3), ('remote_nofault', 2), ('remote_cancel', 1), ('remote_restart', 2)],
+                  ('remote', 3), ('remote_nofault', 2), ('remote_cancel', 1), ('remote_restart', 2), ('remote_keyed', 1)],
         'thorough': [('core', 5), ('nofault', 3), ('keyed', 1), ('cancel', 1), ('cancel_batch', 1), ('poolfault', 1),
-                     ('remote', 3), ('remote_nofault', 2), ('remote_cancel', 1), ('remote_restart', 2)],
+                     ('remote', 3), ('remote_nofault', 2), ('remote_cancel', 1), ('remote_restart', 2), ('remote_keyed', 1)],
     }
     runs = {'quick': 64000, 'thorough': 2400000}
     components = {
